@@ -269,6 +269,48 @@ class Session:
                 self.model_cmds.append('run %s%s' % (ser(ast), kws))
                 r, ok, v = self.capture(lambda: w.run(ast, **kwv))
             return (r if not ok else 'ok ' + ser(v)), ok
+        if name in ('read', 'reads', 'wstr'):
+            text = cmd[1]
+            self.model_cmds.append('%s S%s' % (name, hx(text)))
+            from wal.util import wal_str
+            try:
+                with contextlib.redirect_stdout(io.StringIO()):
+                    if name == 'reads':
+                        v = read_wal_sexprs(text)
+                    else:
+                        v = read_wal_sexpr(text)
+                    if name == 'wstr':
+                        return 'ok S' + hx(wal_str(v)), True
+                return 'ok ' + ser(v), True
+            except ParseError as e:
+                # the documented parse error carries a position (context + message)
+                if not isinstance(getattr(e, 'message', None), str):
+                    return 'ok BADPARSEERROR', True
+                return 'err P', True
+            except RecursionError:
+                return 'err REC', True
+            except BaseException as e:      # noqa: B902
+                return 'ok OTHER-EXCEPTION-%s' % type(e).__name__, True
+        if name == 'rt':
+            text = cmd[1]
+            self.model_cmds.append('rt S%s' % hx(text))
+            from wal.util import wal_str
+            try:
+                with contextlib.redirect_stdout(io.StringIO()):
+                    v = read_wal_sexpr(text)
+            except ParseError:
+                return 'err P', True
+            except BaseException as e:      # noqa: B902
+                return 'ok OTHER-EXCEPTION-%s' % type(e).__name__, True
+            try:
+                with contextlib.redirect_stdout(io.StringIO()):
+                    printed = wal_str(v)
+                    v2 = read_wal_sexpr(printed)
+                self.last_rt = (ser(v), printed, ser(v2))
+                return ('ok same' if ser(v) == ser(v2) else 'ok DIFF'), True
+            except BaseException as e:      # noqa: B902
+                self.last_rt = (ser(v), locals().get('printed'), type(e).__name__)
+                return 'ok DIFF', True
         if name == 'idem':
             # passes applied once vs twice to every form, both versions evaluated on copies of this interpreter
             import copy
